@@ -462,3 +462,56 @@ MUTANTS["C04"] = [
     M("returns_all_lines", KDG, "            return [x for x in self.kernel if x.line_number in longest_path[:-1]]", "            return [x for x in self.kernel]", "R5"),
     M("load_node_other_offset", KDG, "                dg.add_node(instruction_form.line_number + 0.1)\n", "                dg.add_node(instruction_form.line_number + 0.5)\n", "R2"),
 ]
+
+MUTANTS["C09"] = [
+    M("numbering_zero_based", BP, "asm_instructions.append(self.parse_line(line, i + 1 + start_line))", "asm_instructions.append(self.parse_line(line, i + start_line))", "R1"),
+    M("blank_lines_prefiltered", BP, '        lines = file_content.split("\\n")\n', '        lines = [x for x in file_content.split("\\n") if x.strip() != ""]\n', "R1"),
+    M("line_stripped", PX, "        instruction_form = InstructionForm(line=line, line_number=line_number)", "        instruction_form = InstructionForm(line=line.strip(), line_number=line_number)", "R2"),
+    M("directive_before_label", PX, "result = self.process_operand(self.label.parseString(line, parseAll=True).asDict())\n                instruction_form.label = result[0].name",
+      "result = self.process_operand(self.directive.parseString(line, parseAll=True).asDict())\n                instruction_form.label = result[0].name", "R3"),
+    M("instruction_not_guarded", PX, "        # 4. Parse instruction\n        if result is None:", "        # 4. Parse instruction\n        if True:", "R3"),
+    M("comment_prefix_match", PX, "result = self.process_operand(self.comment.parseString(line, parseAll=True).asDict())", "result = self.process_operand(self.comment.parseString(line).asDict())", "R3"),
+    M("unparsable_swallowed", PX, "            except pp.ParseException:\n                raise ValueError(\n                    \"Could not parse instruction on line {}: {!r}\".format(line_number, line)\n                )", "            except pp.ParseException:\n                return instruction_form", "R3"),
+    M("grammar_scale_renamed", PX, '                + pp.Optional(scale.setResultsName("scale"))\n                + pp.Literal(")")\n                + pp.Optional(\n                    pp.Literal("{")', '                + pp.Optional(scale.setResultsName("scl"))\n                + pp.Literal(")")\n                + pp.Optional(\n                    pp.Literal("{")', "R4"),
+    M("reader_index_from_base", PX, '        index = memory_address.get("index", None)', '        index = memory_address.get("base", None)', "R4"),
+    M("third_operand_dropped", PX, '        if "operand3" in result:\n            operands.append(self.process_operand(result["operand3"]))\n', "", "R4"),
+    M("imm_base_10", PX, 'new_immediate = ImmediateOperand(value=int(immediate["value"], 0))', 'new_immediate = ImmediateOperand(value=int(immediate["value"]))', "R5"),
+    M("offset_base_10", PX, '            offset = ImmediateOperand(value=int(offset["value"], 0))', '            offset = ImmediateOperand(value=int(offset["value"], 10))', "R5"),
+    M("scale_default_zero", PX, 'scale = 1 if "scale" not in memory_address else int(memory_address["scale"], 0)', 'scale = 0 if "scale" not in memory_address else int(memory_address["scale"], 0)', "R5"),
+    M("base_index_swapped", PX, "new_dict = MemoryOperand(offset=offset, base=baseOp, index=indexOp, scale=scale)", "new_dict = MemoryOperand(offset=offset, base=indexOp, index=baseOp, scale=scale)", "R5"),
+    M("no_trailing_comment_on_instruction", PX, '            + pp.Optional(operand_rest.setResultsName("operand4"))\n            + pp.Optional(self.comment)\n        )', '            + pp.Optional(operand_rest.setResultsName("operand4"))\n        )', "R6"),
+    M("hex_digits_lowercase_only", PX, 'pp.Optional(pp.Literal("-")) + pp.Literal("0x") + pp.Word(pp.hexnums)', 'pp.Optional(pp.Literal("-")) + pp.Literal("0x") + pp.Word(pp.nums + "abcdef")', "T"),
+    M("scale_without_8", PX, 'scale = pp.Word("1248", exact=1)', 'scale = pp.Word("124", exact=1)', "T"),
+    M("no_negative_numbers", PX, "        decimal_number = pp.Combine(\n            pp.Optional(pp.Literal(\"-\")) + pp.Word(pp.nums)\n        ).setResultsName(\"value\")", "        decimal_number = pp.Combine(\n            pp.Word(pp.nums)\n        ).setResultsName(\"value\")", "T"),
+    M("env_no_hex_displacement", PX, '        offset = pp.Group(hex_number | decimal_number | identifier).setResultsName(\n            self.immediate_id\n        )', '        offset = pp.Group(decimal_number | identifier).setResultsName(\n            self.immediate_id\n        )', "R7", tier="thorough"),
+    M("env_index_needs_base", PX, '                + pp.Literal("(")\n                + pp.Optional(self.register.setResultsName("base"))\n                + pp.Optional(pp.Suppress(pp.Literal(",")))\n                + pp.Optional(self.register.setResultsName("index"))\n                + pp.Optional(pp.Suppress(pp.Literal(",")))\n                + pp.Optional(scale.setResultsName("scale"))\n                + pp.Literal(")")\n                + pp.Optional(\n                    pp.Literal("{")',
+      '                + pp.Literal("(")\n                + self.register.setResultsName("base")\n                + pp.Optional(pp.Suppress(pp.Literal(",")))\n                + pp.Optional(self.register.setResultsName("index"))\n                + pp.Optional(pp.Suppress(pp.Literal(",")))\n                + pp.Optional(scale.setResultsName("scale"))\n                + pp.Literal(")")\n                + pp.Optional(\n                    pp.Literal("{")', "R7", tier="thorough"),
+    M("env_three_operands_only", PX, '            + pp.Optional(pp.Suppress(pp.Literal(",")))\n            + pp.Optional(operand_rest.setResultsName("operand4"))\n', "", None, tier="thorough"),
+    M("env_immediate_no_dollar_hex", PX, "pp.Literal(symbol_immediate) + (hex_number | decimal_number | identifier)", "pp.Literal(symbol_immediate) + (decimal_number | identifier)", "R7", tier="thorough"),
+]
+
+MUTANTS["C10"] = [
+    M("revert_hex_index_shift", PA, 'scale = 2 ** int(memory_address["index"]["shift"][0]["value"], 0)', 'scale = 2 ** int(memory_address["index"]["shift"][0]["value"])', "R5", "revert of the fix"),
+    M("revert_hex_arith_shift", PA, '                immediate["shift"]["value"], 0\n', '                immediate["shift"]["value"]\n', "R5", "revert of the fix"),
+    M("post_index_base_10", PA, 'new_dict.post_indexed = {"value": int(memory_address["post_indexed"]["value"], 0)}', 'new_dict.post_indexed = {"value": int(memory_address["post_indexed"]["value"])}', "R5"),
+    M("scale_linear", PA, 'scale = 2 ** int(memory_address["index"]["shift"][0]["value"], 0)', 'scale = 2 * int(memory_address["index"]["shift"][0]["value"], 0)', "R8"),
+    M("scale_default_zero", PA, "        index = memory_address.get(\"index\", None)\n        scale = 1\n", "        index = memory_address.get(\"index\", None)\n        scale = 0\n", "R8"),
+    M("sp_base_no_prefix", PA, '        if base is not None and "name" in base and base["name"].lower() == "sp":\n            base["prefix"] = "x"\n', "", "R9"),
+    M("pre_index_ignored", PA, '        if "pre_indexed" in memory_address:\n            new_dict.pre_indexed = True\n', "", "R9"),
+    M("range_exclusive", PA, "for name in range(int(start_name), int(end_name) + 1):", "for name in range(int(start_name), int(end_name)):", "R10"),
+    M("range_index_not_propagated", PA, '                reg = deepcopy(base_register)\n                if index is not None:\n                    reg["index"] = int(index, 0)\n', '                reg = deepcopy(base_register)\n', "R10"),
+    M("directive_after_instruction", PA, "result = self.process_operand(\n                    self.directive.parseString(line, parseAll=True).asDict()\n                )", "result = self.process_operand(\n                    self.label.parseString(line, parseAll=True).asDict()\n                )", "R3"),
+    M("grammar_pre_indexed_renamed", PA, 'pp.Literal("!").setResultsName("pre_indexed")', 'pp.Literal("!").setResultsName("preindexed")', "R4"),
+    M("reader_shape_key", PA, '            shape=operand["shape"].lower() if "shape" in operand else None,\n            lanes=operand["lanes"] if "lanes" in operand else None,\n            index=operand["index"] if "index" in operand else None,\n            predication=operand["predication"].lower() if "predication" in operand else None,\n        )\n\n    def process_memory_address',
+      '            shape=operand["shp"].lower() if "shape" in operand else None,\n            lanes=operand["lanes"] if "lanes" in operand else None,\n            index=operand["index"] if "index" in operand else None,\n            predication=operand["predication"].lower() if "predication" in operand else None,\n        )\n\n    def process_memory_address', "R4"),
+    M("fifth_operand_dropped", PA, '        if "operand5" in result:\n            operand = self.process_operand(result["operand5"])\n            operands.extend(operand) if isinstance(operand, list) else operands.append(operand)\n', "", "R4"),
+    M("no_zr_alias_uppercase", PA, 'alias_r31_zr = pp.Regex("(?P<prefix>[a-zA-Z])?(?P<name>(zr|ZR))")', 'alias_r31_zr = pp.Regex("(?P<prefix>[a-zA-Z])?(?P<name>(zr))")', "T"),
+    M("condition_ls_missing", PA, '            ^ pp.CaselessLiteral("LS")  # c clear or z set\n', "", "T"),
+    M("lanes_without_16", PA, '                + pp.Optional(pp.Word("12468")).setResultsName("lanes")\n                + pp.Word(pp.alphas, exact=1).setResultsName("shape")\n            )\n            + pp.Optional(index)\n        )', '                + pp.Optional(pp.Word("2468")).setResultsName("lanes")\n                + pp.Word(pp.alphas, exact=1).setResultsName("shape")\n            )\n            + pp.Optional(index)\n        )', "T"),
+    M("hash_mandatory", PA, "            pp.Optional(pp.Literal(symbol_immediate))\n            + (hex_number ^ decimal_number ^ float_ ^ double_)", "            pp.Literal(symbol_immediate)\n            + (hex_number ^ decimal_number ^ float_ ^ double_)", "R11"),
+    M("normalize_base_10", PA, "                # hex or bin, return decimal\n                return int(imd.value, 0)", "                # hex or bin, return decimal\n                return int(imd.value)", None),
+    M("env_no_post_index", PA, '                pp.Literal("!").setResultsName("pre_indexed")\n                | (pp.Suppress(pp.Literal(",")) + immediate.setResultsName("post_indexed"))', '                pp.Literal("!").setResultsName("pre_indexed")', None, tier="thorough"),
+    M("env_no_register_range", PA, '                ^ pp.delimitedList(pp.Combine(self.list_element), delim="-").setResultsName(\n                    "range"\n                )\n', "", None, tier="thorough"),
+    M("env_no_sp_alias", PA, "            (alias_r31_sp | alias_r31_zr | vector | scalar | predicate | register_list)\n            # (alias", "            (alias_r31_zr | vector | scalar | predicate | register_list)\n            # (alias", "R7", tier="thorough"),
+    M("env_float_needs_exponent", PA, "double_ = pp.Group(mantissa + pp.Optional(exponent)).setResultsName(\"double\")", "double_ = pp.Group(mantissa + exponent).setResultsName(\"double\")", "R7", tier="thorough"),
+]
